@@ -1,8 +1,8 @@
 package main
 
 import (
-	"errors"
 	"bytes"
+	"errors"
 	"io"
 	"math/rand"
 	"sort"
@@ -190,6 +190,30 @@ func execControlRW(vec J, out *Writer) {
 			singles = append(singles, J{"w": B(w), "w_ok": werr == nil, "r": obsParas(r, rerr)})
 		}
 		out.Put(J{"ev": "write", "in": vec, "singles": singles, "cycles": cycles(ps, 3)})
+	case "enc_structs":
+		// structs (one required field, one optional) through the Encoder, one after another
+		var buf bytes.Buffer
+		rec := J{"ev": "enc_structs", "in": vec, "ok": false, "panic": false, "w": B("")}
+		func() {
+			defer func() {
+				if r := recover(); r != nil {
+					rec["panic"] = true
+				}
+			}()
+			enc, err := control.NewEncoder(&buf)
+			if err != nil {
+				return
+			}
+			for _, vj := range L(vec["values"]) {
+				v := M(vj)
+				if enc.Encode(encProbe{Name: S(v["Name"]), Comment: S(v["Comment"])}) != nil {
+					return
+				}
+			}
+			rec["ok"] = true
+		}()
+		rec["w"] = BB(buf.Bytes())
+		out.Put(rec)
 	case "write_fault":
 		// a sink that refuses exactly its k-th Write (nothing of it is stored, an error is returned), then works again:
 		// what the Encoder / WriteTo REPORT as written must be in the sink
@@ -388,4 +412,10 @@ func (f *faultySink) Write(p []byte) (int, error) {
 		return 0, errors.New("injected write failure")
 	}
 	return f.buf.Write(p)
+}
+
+// encProbe: a required field (written even when empty) and an optional one (omitted when empty)
+type encProbe struct {
+	Name    string `required:"true"`
+	Comment string
 }
